@@ -140,12 +140,12 @@ func HostRuleConfLoad(filename string) (HostConf, error) {
 	// convert HostTagToHost to Host2HostTag
 	host2HostTag := make(Host2HostTag)
 
-	// host names are compared case-insensitively when requests are routed,
-	// so they must be unique case-insensitively
+	// host names are compared case-insensitively and without the trailing dot
+	// when requests are routed, so they must be unique in that form
 	hostSeen := make(map[string]bool)
 	for hostTag, hostnameList := range *config.Hosts {
 		for _, hostName := range *hostnameList {
-			key := strings.ToLower(hostName)
+			key := strings.TrimSuffix(strings.ToLower(hostName), ".")
 			if hostSeen[key] {
 				return conf, fmt.Errorf("host duplicate for %s", hostName)
 			}
